@@ -55,6 +55,7 @@ def main():
         "--ignore",
         nargs='*',
         type=str,
+        default=[],
         help="A space-separated list of classes to ignore. "
         "Class names must include their full namespaces.",
     )
